@@ -11,6 +11,7 @@ mode = sys.argv[4] if len(sys.argv) > 4 else None
 import pyvc.path as P
 for h in REGISTRY:
     if only and only not in h.name: continue
+    if h.fn.__module__ != sys.argv[1]: continue
     for case in h.case_list():
         if os.environ.get('CASE') and os.environ['CASE'] not in repr(case): continue
         orig = P.Explorer.__init__
